@@ -372,6 +372,19 @@ pub fn drive_c16(a: &Args, out: &mut Out) {
 
 // ------------------------------------------------------------------ C05
 
+/// `io::Write` sink that accepts at most three bytes per `write` call (short writes are legal)
+pub struct ChunkWriter(pub Vec<u8>);
+impl std::io::Write for ChunkWriter {
+    fn write(&mut self, buf: &[u8]) -> std::io::Result<usize> {
+        let n = buf.len().min(3);
+        self.0.extend_from_slice(&buf[..n]);
+        Ok(n)
+    }
+    fn flush(&mut self) -> std::io::Result<()> {
+        Ok(())
+    }
+}
+
 pub fn udiff_record<T: DiffableStr + ?Sized>(
     case: i64,
     alg: Algorithm,
@@ -406,7 +419,10 @@ pub fn udiff_record<T: DiffableStr + ?Sized>(
                 }
                 v
             };
-            (w, d.into_bytes(), hw, ops_json(diff.ops()))
+            // a conforming sink that takes at most three bytes per write call
+            let mut cw = ChunkWriter(vec![]);
+            ud.to_writer(&mut cw).unwrap();
+            (w, d.into_bytes(), hw, ops_json(diff.ops()), cw.0)
         });
         similar::verif_hooks::set_swap_repair(false);
         let swaps = similar::verif_hooks::take_swap_count();
@@ -418,8 +434,9 @@ pub fn udiff_record<T: DiffableStr + ?Sized>(
         "old":bytes_json(old.as_bytes()),"new":bytes_json(new.as_bytes()),"swaps":swaps,
         "utf8": std::str::from_utf8(old.as_bytes()).is_ok() && std::str::from_utf8(new.as_bytes()).is_ok()});
     match plain {
-        Some((w, d, hw, ops)) => {
+        Some((w, d, hw, ops, cw)) => {
             v["panic"] = json!(false);
+            v["out_w_chunk"] = bytes_json(&cw);
             v["lossy_w"] = bytes_json(String::from_utf8_lossy(&w).as_bytes());
             v["out_w"] = bytes_json(&w);
             v["out_d"] = bytes_json(&d);
@@ -436,7 +453,7 @@ pub fn udiff_record<T: DiffableStr + ?Sized>(
         }
     }
     match rep {
-        Some((w, _, _, _)) => {
+        Some((w, _, _, _, _)) => {
             v["rep_panic"] = json!(false);
             v["out_w_rep"] = bytes_json(&w);
         }
